@@ -583,7 +583,14 @@ func brContainer(r *binaryReader) bool {
 // that NewReaderCat has seen to start with a version marker (E0 .. .. EA).
 func brTable(r *binaryReader) bool {
 	return r.lst != nil ||
-		(r.bits.pos == 0 && r.bits.state == bssBeforeValue && len(r.bits.stack.arr) == 0 && bsAvail(&r.bits) >= 4 && bsByte(&r.bits, 0) == 0xE0)
+		(r.bits.pos == 0 && r.bits.state == bssBeforeValue && len(r.bits.stack.arr) == 0 && bsAvail(&r.bits) >= 4 && bsByte(&r.bits, 0) == 0xE0) ||
+		(r.bits.pos == 1 && r.bits.state == bssOnValue && r.bits.code == bitcodeBVM && len(r.bits.stack.arr) == 0)
+}
+
+// specIsLSTAnnotation: the value's first annotation is $ion_symbol_table (Ion spec, "Local
+// Symbol Tables": a top-level struct so annotated is a symbol table, not user data).
+func specIsLSTAnnotation(as []SymbolToken) bool {
+	return len(as) > 0 && as[0].Text != nil && *as[0].Text == "$ion_symbol_table"
 }
 
 // brLocal: the quantifier-free part of the binary reader's invariant: the bitstream's
